@@ -2,6 +2,7 @@ import Uft.Lemmas.ReportOpen
 import Uft.Lemmas.ReportSort
 import Uft.Lemmas.ReportDiff
 import Uft.Lemmas.ReportMono
+import Uft.Lemmas.ReportExt
 /- C08 — Report statistics are exact sums over the trace.
 
    Setting.  A data set is a list of call forests, one per task (`forests[i]` is what task `i`
@@ -239,6 +240,50 @@ theorem foldl_max_in (l : List Nat) (hne : l ≠ []) : l.foldl max 0 ∈ l := by
     exact this ▸ hx
   · exact h
 
+/-- min / max / avg of a node that received the updates `us` (durations below 2^64) -/
+theorem min_max_avg_of_upds (us : List Upd) (hne : us ≠ []) (hmem : ∀ u ∈ us, u.total < M64 ∧ u.self < M64) :
+    let totals := us.map (·.total)
+    let selfs := us.map (·.self)
+    let n := ({} : Node).upds us
+    (n.total.min ∈ totals ∧ ∀ d ∈ totals, n.total.min ≤ d) ∧
+    (n.total.max ∈ totals ∧ ∀ d ∈ totals, d ≤ n.total.max) ∧
+    (n.self.min ∈ selfs ∧ ∀ d ∈ selfs, n.self.min ≤ d) ∧
+    (n.self.max ∈ selfs ∧ ∀ d ∈ selfs, d ≤ n.self.max) ∧
+    n.total.avg n.call = (totals.sum % M64) / totals.length ∧
+    n.self.avg n.call = (selfs.sum % M64) / selfs.length := by
+  intro totals selfs n
+  have htne : totals ≠ [] := by simpa [totals] using hne
+  have hsne : selfs ≠ [] := by simpa [selfs] using hne
+  have htl : ∀ x ∈ totals, x < M64 := by
+    intro x hx; obtain ⟨u, hu, rfl⟩ := List.mem_map.mp hx; exact (hmem u hu).1
+  have hsl : ∀ x ∈ selfs, x < M64 := by
+    intro x hx; obtain ⟨u, hu, rfl⟩ := List.mem_map.mp hx; exact (hmem u hu).2
+  have e1 : n.total.min = totals.foldl min (M64 - 1) := by simp only [n]; rw [Node.upds_total_min]
+  have e2 : n.total.max = totals.foldl max 0 := by simp only [n]; rw [Node.upds_total_max]
+  have e3 : n.self.min = selfs.foldl min (M64 - 1) := by simp only [n]; rw [Node.upds_self_min]
+  have e4 : n.self.max = selfs.foldl max 0 := by simp only [n]; rw [Node.upds_self_max]
+  have e5 : n.call = totals.length := by simp only [n]; rw [Node.upds_call]; simp [totals]
+  have e6 : n.total.sum + n.total.recs = totals.sum := by
+    simp only [n]
+    rw [Node.upds_total_sum, Node.upds_total_recs]
+    have := sum_split_rec us
+    simp only [totals]; simp; omega
+  have e7 : n.self.sum + n.self.recs = selfs.sum := by
+    simp only [n]
+    rw [Node.upds_self_sum, Node.upds_self_recs]; simp [selfs]
+  refine ⟨⟨?_, ?_⟩, ⟨?_, ?_⟩, ⟨?_, ?_⟩, ⟨?_, ?_⟩, ?_, ?_⟩
+  · rw [e1]; exact foldl_min_in totals htne htl
+  · rw [e1]; exact (foldl_min_le totals _).2
+  · rw [e2]; exact foldl_max_in totals htne
+  · rw [e2]; exact (foldl_max_ge totals _).2
+  · rw [e3]; exact foldl_min_in selfs hsne hsl
+  · rw [e3]; exact (foldl_min_le selfs _).2
+  · rw [e4]; exact foldl_max_in selfs hsne
+  · rw [e4]; exact (foldl_max_ge selfs _).2
+  · simp only [Stat.avg, e6, e5]
+  · have : selfs.length = totals.length := by simp [selfs, totals]
+    simp only [Stat.avg, e7, e5, this]
+
 /-- min / max are the extremal durations of the function's invocations (all of them, recursive
     ones included), avg is the C integer division of their sum (mod 2^64) by the call count — for
     the Total and the Self figures; these are the columns of --avg-total / --avg-self. -/
@@ -259,38 +304,12 @@ theorem c08_min_max_avg (m : Nat) (forests : List Calls) (hfit : ∀ cs ∈ fore
     have hu' : u ∈ allInvs forests := (List.mem_filter.mp hu).1
     obtain ⟨cs, hcs, hin⟩ := List.mem_flatMap.mp hu'
     exact invsL_lt cs [] (hwt cs hcs) u hin
-  have htne : totals ≠ [] := by simpa [totals] using hcalled
-  have hsne : selfs ≠ [] := by simpa [selfs] using hcalled
-  have htl : ∀ x ∈ totals, x < M64 := by
-    intro x hx; obtain ⟨u, hu, rfl⟩ := List.mem_map.mp hx; exact (hmem u hu).1
-  have hsl : ∀ x ∈ selfs, x < M64 := by
-    intro x hx; obtain ⟨u, hu, rfl⟩ := List.mem_map.mp hx; exact (hmem u hu).2
   have hn : n = ({} : Node).upds (forKey f (allInvs forests)) := by
     show reportNodes false m (streamsOf forests) f = _
     rw [report_forests m forests hfit, Nodes.upds_apply, allUpds_eq_allInvs forests hwt]
-  have e1 : n.total.min = totals.foldl min (M64 - 1) := by rw [hn, Node.upds_total_min]
-  have e2 : n.total.max = totals.foldl max 0 := by rw [hn, Node.upds_total_max]
-  have e3 : n.self.min = selfs.foldl min (M64 - 1) := by rw [hn, Node.upds_self_min]
-  have e4 : n.self.max = selfs.foldl max 0 := by rw [hn, Node.upds_self_max]
-  have e5 : n.call = totals.length := by rw [hn, Node.upds_call]; simp [totals]
-  have e6 : n.total.sum + n.total.recs = totals.sum := by
-    rw [hn, Node.upds_total_sum, Node.upds_total_recs]
-    have := sum_split_rec (forKey f (allInvs forests))
-    simp only [totals]; simp; omega
-  have e7 : n.self.sum + n.self.recs = selfs.sum := by
-    rw [hn, Node.upds_self_sum, Node.upds_self_recs]; simp [selfs]
-  refine ⟨⟨?_, ?_⟩, ⟨?_, ?_⟩, ⟨?_, ?_⟩, ⟨?_, ?_⟩, ?_, ?_⟩
-  · rw [e1]; exact foldl_min_in totals htne htl
-  · rw [e1]; exact (foldl_min_le totals _).2
-  · rw [e2]; exact foldl_max_in totals htne
-  · rw [e2]; exact (foldl_max_ge totals _).2
-  · rw [e3]; exact foldl_min_in selfs hsne hsl
-  · rw [e3]; exact (foldl_min_le selfs _).2
-  · rw [e4]; exact foldl_max_in selfs hsne
-  · rw [e4]; exact (foldl_max_ge selfs _).2
-  · simp only [Stat.avg, e6, e5]
-  · have : selfs.length = totals.length := by simp [selfs, totals]
-    simp only [Stat.avg, e7, e5, this]
+  have := min_max_avg_of_upds (forKey f (allInvs forests)) hcalled hmem
+  simp only [← hn] at this
+  exact this
 
 example : forKey 1 (allInvs [exForest, exForest]) ≠ [] := by
   simp [allInvs, exForest, invsL, invs, forKey]
@@ -398,5 +417,260 @@ example : let done : Calls := .cons (.node 5 1 9 .nil) .nil
     wtL (closeAt (lastTimeOf 0 (evCalls 0 done ++ evOpen 0 spine)) spine) := by
   simp [Calls.height, Call.height, openHeight, wtL, wt, closeAt, capp, durSum, durI, lastTimeOf, evCalls, evCall,
     evOpen, M64]
+
+/-! ### the report keys its rows by NAME (any symbol table)
+
+   `uftrace report` finds the node of an invocation by the *name* `symbol_getname` gives its
+   address (`find_insert_node`, `insert_node`): every address inside a symbol of that name — two
+   static functions of different files, the same name in two modules, overloads demangled alike,
+   two addresses inside one function — shares one row; an address without a symbol has a row of
+   its own (`<hex address>`).  So "each function" of the property is a function *as the user sees
+   it*, a name: `ky.name a` is the row of address `a`, `ky.sym a` says whether `a` has a symbol.
+   `reportNodesK ky m streams` is the model of that report; `ky.byName = true` is the repaired
+   recursion test (proposed_fixes/C08-SAMENAME.diff), `false` the code as found (finding
+   F-C08-SAMENAME).  `allInvsN ky.name forests` is the tree-defined list of invocations *by row*:
+   row `name f`, duration, self time, and `recursive` = an open caller belongs to the same row.
+   `allInvs forests` is the address-level list of the theorems above. -/
+
+/-- the report's node of row `k` (a name) for a data set of complete forests -/
+def nodeK (ky : Keying) (m : Nat) (forests : List Calls) (k : Nat) : Node :=
+  reportNodesK ky m (streamsOf forests) k
+
+/-- Core, any keying (as found or repaired), any symbol table, no hypothesis on the timestamps:
+    the name-keyed node table is the empty table folded over the forests' invocations as the
+    reader computes them. -/
+theorem c08_named_report_is_tree_fold (ky : Keying) (m : Nat) (forests : List Calls)
+    (hfit : ∀ cs ∈ forests, cs.height ≤ m) :
+    reportNodesK ky m (streamsOf forests) = Nodes.upds (fun _ => {}) (allUpdsK ky forests) :=
+  report_forestsK ky m forests hfit
+
+/-- The name-keyed model extends the model of the theorems above: with a 1-1 symbol table (every
+    address its own name) and the recursion test as found it is `reportNodes false` on *every*
+    record stream (LOST, late starts, inverted timestamps included) … -/
+theorem c08_named_extends_plain (sym : Nat → Bool) (m : Nat) (streams : List (List Rec)) :
+    reportNodesK (Keying.plain sym) m streams = reportNodes false m streams :=
+  reportNodesK_plain sym m streams
+
+/-- … and on complete forests the repaired recursion test changes nothing when no two addresses
+    share a name: every theorem about `node` holds for the repaired code on 1-1 symbol tables. -/
+theorem c08_named_injective_is_plain (ky : Keying) (hid : ∀ a, ky.name a = a) (m : Nat) (forests : List Calls)
+    (hfit : ∀ cs ∈ forests, cs.height ≤ m) (f : Nat) :
+    nodeK ky m forests f = node m forests f := by
+  unfold nodeK node
+  rw [report_forestsK ky m forests hfit, report_forests m forests hfit, allUpdsK_id ky hid]
+
+example : ∀ a, ({ name := id, sym := fun _ => true, byName := true } : Keying).name a = a := fun _ => rfl
+
+/-- Calls of a row = the number of invocations of every address of that name (any keying, any
+    table, no hypothesis on timestamps): each named function is listed once, in one row. -/
+theorem c08_named_calls_exact (ky : Keying) (m : Nat) (forests : List Calls)
+    (hfit : ∀ cs ∈ forests, cs.height ≤ m) (k : Nat) :
+    (nodeK ky m forests k).call = (forKey k (allInvsN ky.name forests)).length ∧
+    (forKey k (allInvsN ky.name forests)).length =
+      ((allInvs forests).filter (fun u => ky.name u.key == k)).length := by
+  refine ⟨?_, ?_⟩
+  · unfold nodeK
+    rw [report_forestsK ky m forests hfit, Nodes.upds_apply, Node.upds_call,
+      forKey_length_tags k _ _ (allUpdsK_tags ky forests),
+      (forKey_of_figs k _ _ (allInvsK_figs ky forests)).1]
+    simp
+  · have := forKey_of_named ky.name k _ _ (allInvsN_figs ky.name forests)
+    have h2 := congrArg List.length this
+    simpa using h2
+
+/-- Self of a row = Σ over its invocations of (duration − Σ durations of the direct callees)
+    (any keying, any table); these are the self times of the address-level invocations of every
+    address of that name. -/
+theorem c08_named_self_exact (ky : Keying) (m : Nat) (forests : List Calls)
+    (hfit : ∀ cs ∈ forests, cs.height ≤ m) (hwt : ∀ cs ∈ forests, wtL cs) (k : Nat) :
+    (nodeK ky m forests k).self.sum = ((forKey k (allInvsN ky.name forests)).map (·.self)).sum ∧
+    (nodeK ky m forests k).self.recs = 0 ∧
+    (forKey k (allInvsN ky.name forests)).map (·.self) =
+      ((allInvs forests).filter (fun u => ky.name u.key == k)).map (·.self) := by
+  refine ⟨?_, ?_, ?_⟩
+  · unfold nodeK
+    rw [report_forestsK ky m forests hfit, Nodes.upds_apply, Node.upds_self_sum,
+      allUpdsK_eq ky forests hwt, (forKey_of_figs k _ _ (allInvsK_figs ky forests)).2.1]
+    simp
+  · unfold nodeK
+    rw [report_forestsK ky m forests hfit, Nodes.upds_apply, Node.upds_self_recs]
+  · have := forKey_of_named ky.name k _ _ (allInvsN_figs ky.name forests)
+    have h2 := congrArg (List.map Prod.snd) this
+    simpa [List.map_map, Function.comp_def] using h2
+
+/-- Total of a row, repaired recursion test, sane symbol table: the summed duration of the row's
+    invocations that do not run inside another invocation of the same row (the outermost ones);
+    the others are summed in `rec`. -/
+theorem c08_named_total_exact (ky : Keying) (hb : ky.byName = true) (hw : ky.WF) (m : Nat) (forests : List Calls)
+    (hfit : ∀ cs ∈ forests, cs.height ≤ m) (hwt : ∀ cs ∈ forests, wtL cs) (k : Nat) :
+    (nodeK ky m forests k).total.sum =
+        (((forKey k (allInvsN ky.name forests)).filter (fun u => !u.recursive)).map (·.total)).sum ∧
+    (nodeK ky m forests k).total.recs =
+        (((forKey k (allInvsN ky.name forests)).filter (fun u => u.recursive)).map (·.total)).sum := by
+  unfold nodeK
+  rw [report_forestsK ky m forests hfit, Nodes.upds_apply, Node.upds_total_sum, Node.upds_total_recs,
+    allUpdsK_eq ky forests hwt, allInvsK_eq_allInvsN ky hb hw forests]
+  simp
+
+/-- a keying with several addresses per name (2 and 3 are both `dup`), addresses without symbol
+    (10 and above), repaired test: it is sane -/
+def exKy (fixed : Bool) : Keying :=
+  { name := fun a => if a = 3 then 2 else a, sym := fun a => decide (a < 10), byName := fixed }
+
+theorem exKy_wf (fixed : Bool) : (exKy fixed).WF := by
+  intro a b h
+  simp only [exKy] at h ⊢
+  by_cases ha : a = 3 <;> by_cases hb : b = 3 <;> simp [ha, hb] at h ⊢ <;> omega
+
+example : (exKy true).byName = true ∧ (exKy true).WF := ⟨rfl, exKy_wf true⟩
+
+/-- With the repaired test no row's Total exceeds the summed duration of the data set's top-level
+    calls: the outermost invocations of a row never overlap (this is what the recursion test is
+    for, and what fails before the repair: `c08_prefix_samename_witness`). -/
+theorem c08_named_total_le_toplevel (ky : Keying) (hb : ky.byName = true) (hw : ky.WF) (m : Nat)
+    (forests : List Calls) (hfit : ∀ cs ∈ forests, cs.height ≤ m) (hwt : ∀ cs ∈ forests, wtL cs) (k : Nat) :
+    (nodeK ky m forests k).total.sum ≤ (forests.map durSum).sum := by
+  rw [(c08_named_total_exact ky hb hw m forests hfit hwt k).1]
+  exact nonrec_le_forests ky.name k forests hwt
+
+theorem allInvsN_self_sum (name : Nat → Nat) : ∀ (forests : List Calls), (∀ cs ∈ forests, wtL cs) →
+    ((allInvsN name forests).map (·.self)).sum = (forests.map durSum).sum
+  | [], _ => rfl
+  | cs :: rest, h => by
+    have ih := allInvsN_self_sum name rest (fun x hx => h x (List.mem_cons_of_mem _ hx))
+    unfold allInvsN at ih ⊢
+    simp only [List.flatMap_cons, List.map_append, List.sum_append, List.map_cons, List.sum_cons]
+    rw [invsLN_self_sum name cs [] (h cs List.mem_cons_self), ih]
+
+/-- Telescoping for the name-keyed table (any keying, any table): over any list of distinct
+    names that covers the rows of the data set, the Self column adds up to the summed duration of
+    all tasks' top-level calls. -/
+theorem c08_named_self_telescopes (ky : Keying) (m : Nat) (forests : List Calls)
+    (hfit : ∀ cs ∈ forests, cs.height ≤ m) (hwt : ∀ cs ∈ forests, wtL cs) (keys : List Nat) (hnd : keys.Nodup)
+    (hcov : ∀ u ∈ allInvsN ky.name forests, u.key ∈ keys) :
+    (keys.map (fun k => (nodeK ky m forests k).self.sum)).sum = (forests.map durSum).sum := by
+  have h1 : ∀ k, (nodeK ky m forests k).self.sum = ((forKey k (allInvsN ky.name forests)).map (·.self)).sum :=
+    fun k => (c08_named_self_exact ky m forests hfit hwt k).1
+  simp only [h1]
+  rw [sum_forKey_self keys hnd _ hcov, allInvsN_self_sum ky.name forests hwt]
+
+example : ∃ keys : List Nat, keys.Nodup ∧ ∀ u ∈ allInvsN (exKy true).name [exForest, exForest], u.key ∈ keys :=
+  ⟨[1, 2], by decide, by simp [allInvsN, exForest, invsLN, invsN, exKy]⟩
+
+/-- min / max / avg of a row (any keying, any table): the extremal durations of the row's
+    invocations (all of them), avg the C integer division of their sum (mod 2^64) by Calls — the
+    columns of --avg-total / --avg-self. -/
+theorem c08_named_min_max_avg (ky : Keying) (m : Nat) (forests : List Calls)
+    (hfit : ∀ cs ∈ forests, cs.height ≤ m) (hwt : ∀ cs ∈ forests, wtL cs) (k : Nat)
+    (hcalled : forKey k (allInvsN ky.name forests) ≠ []) :
+    let totals := (forKey k (allInvsN ky.name forests)).map (·.total)
+    let selfs := (forKey k (allInvsN ky.name forests)).map (·.self)
+    let n := nodeK ky m forests k
+    (n.total.min ∈ totals ∧ ∀ d ∈ totals, n.total.min ≤ d) ∧
+    (n.total.max ∈ totals ∧ ∀ d ∈ totals, d ≤ n.total.max) ∧
+    (n.self.min ∈ selfs ∧ ∀ d ∈ selfs, n.self.min ≤ d) ∧
+    (n.self.max ∈ selfs ∧ ∀ d ∈ selfs, d ≤ n.self.max) ∧
+    n.total.avg n.call = (totals.sum % M64) / totals.length ∧
+    n.self.avg n.call = (selfs.sum % M64) / selfs.length := by
+  intro totals selfs n
+  obtain ⟨hlen, hs, ht⟩ := forKey_of_figs k _ _ (allInvsK_figs ky forests)
+  have hn : n = ({} : Node).upds (forKey k (allInvsK ky forests)) := by
+    show reportNodesK ky m (streamsOf forests) k = _
+    rw [report_forestsK ky m forests hfit, Nodes.upds_apply, allUpdsK_eq ky forests hwt]
+  have hne : forKey k (allInvsK ky forests) ≠ [] := by
+    intro e
+    rw [e] at hlen
+    exact hcalled (List.length_eq_zero_iff.mp hlen.symm)
+  have hmemN : ∀ u ∈ forKey k (allInvsN ky.name forests), u.total < M64 ∧ u.self < M64 := by
+    intro u hu
+    have hu' : u ∈ allInvsN ky.name forests := (List.mem_filter.mp hu).1
+    obtain ⟨cs, hcs, hin⟩ := List.mem_flatMap.mp hu'
+    exact invsLN_lt ky.name cs [] (hwt cs hcs) u hin
+  have hmem : ∀ u ∈ forKey k (allInvsK ky forests), u.total < M64 ∧ u.self < M64 := by
+    intro u hu
+    have h1 : u.total ∈ (forKey k (allInvsN ky.name forests)).map (·.total) := ht ▸ List.mem_map_of_mem hu
+    have h2 : u.self ∈ (forKey k (allInvsN ky.name forests)).map (·.self) := hs ▸ List.mem_map_of_mem hu
+    obtain ⟨v, hv, e1⟩ := List.mem_map.mp h1
+    obtain ⟨w, hw', e2⟩ := List.mem_map.mp h2
+    exact ⟨e1 ▸ (hmemN v hv).1, e2 ▸ (hmemN w hw').2⟩
+  have := min_max_avg_of_upds (forKey k (allInvsK ky forests)) hne hmem
+  simp only [ht, hs, ← hn] at this
+  exact this
+
+example : forKey 2 (allInvsN (exKy true).name [exForest, exForest]) ≠ [] := by
+  simp [allInvsN, exForest, invsLN, invsN, forKey, exKy]
+
+/-- the finding's shape: `main` (1) calls `dup` at address 2, which calls the other `dup` at
+    address 3 (both named 2), 1000–2000, 1100–1900, 1200–1500 -/
+def dupForest : Calls :=
+  .cons (.node 1 1000 2000 (.cons (.node 2 1100 1900 (.cons (.node 3 1200 1500 .nil) .nil)) .nil)) .nil
+
+/-- F-C08-SAMENAME witness (the code as found, `byName = false`): the row `dup` gets Total
+    800 + 300 = 1100 ns although the whole program ran 1000 ns (its two invocations are nested, the
+    inner one is not taken for recursive because its address differs); Calls and Self are right.
+    The repaired test gives 800 ns, the duration of the outermost invocation. -/
+theorem c08_prefix_samename_witness :
+    (nodeK (exKy false) 8 [dupForest] 2).total.sum = 1100 ∧
+    (nodeK (exKy false) 8 [dupForest] 1).total.sum = 1000 ∧ durSum dupForest = 1000 ∧
+    (nodeK (exKy false) 8 [dupForest] 2).call = 2 ∧ (nodeK (exKy false) 8 [dupForest] 2).self.sum = 800 ∧
+    (nodeK (exKy true) 8 [dupForest] 2).total.sum = 800 ∧ (nodeK (exKy true) 8 [dupForest] 2).total.recs = 300 := by
+  decide
+
+/-! ### the task report (`--task`) -/
+
+/-- `report --task -s KEYS` with the repaired `tid` comparison: for every accepted key list the
+    printed rows are the task rows reordered so that no row is followed by one that compares
+    greater under the requested chain (total, self, func = number of functions: larger first;
+    tid: smaller tid first, compared as numbers; name: the task's comm). -/
+theorem c08_task_rows_sorted (names : List String) (rows out : List Row)
+    (h : sortTaskRows true names rows = some out) :
+    out.Perm rows ∧
+    out.Pairwise (fun a b => ¬ cmpChain ((names.map (taskCmpT true)).filterMap id) a b < 0) :=
+  sortTaskRows_spec names rows out h
+
+example : ∃ out, sortTaskRows true ["func", "tid"] [zeroRow 100, zeroRow 99] = some out := ⟨_, rfl⟩
+
+/-- `-s tid`: the TID column is in ascending numeric order. -/
+theorem c08_task_tid_numeric (rows out : List Row) (h : sortTaskRows true ["tid"] rows = some out) :
+    out.Perm rows ∧ out.Pairwise (fun a b => a.key ≤ b.key) := by
+  obtain ⟨hp, hd⟩ := sortTaskRows_spec ["tid"] rows out h
+  refine ⟨hp, hd.imp ?_⟩
+  intro a b hab
+  have e : ((["tid"].map (taskCmpT true)).filterMap id) = [fun a b => cmpNat b.key a.key] := by
+    simp [taskCmpT]
+  rw [e] at hab
+  simp only [cmpChain, cmpNat] at hab
+  by_cases h1 : b.key = a.key
+  · omega
+  · by_cases h2 : b.key > a.key
+    · omega
+    · simp [h1, h2] at hab
+
+/-- F-C08-TIDSORT witness (the code as found: `strcmp` on the decimal strings): `-s tid` puts tid
+    100 before tid 99; the repaired comparison puts 99 first. -/
+theorem c08_prefix_tid_sort_witness :
+    sortTaskRows false ["tid"] [zeroRow 99, zeroRow 100] = some [zeroRow 100, zeroRow 99] ∧
+    sortTaskRows true ["tid"] [zeroRow 100, zeroRow 99] = some [zeroRow 99, zeroRow 100] := by
+  decide
+
+/-! ### `--diff-policy percent` of a data set against itself -/
+
+/-- With the percent policy a node table diffed against itself pairs every row with itself, adds
+    no row, and every percentage it shows is 0 (numerator 0; a zero figure is printed `N/A`) —
+    whatever sort keys, --sort-column and abs/no-abs. -/
+theorem c08_percent_diff_self_zero (keys : List Key) (column : Nat) (absolute : Bool)
+    (ns : Nodes) (size : Nat → Nat) (ids : List Nat) (hnd : ids.Nodup) :
+    let rows := nameRows ns size ids
+    (diffByKeysP keys column absolute true rows rows).Perm (rows.map (fun b => { base := b, pair := b })) ∧
+    ∀ d ∈ diffByKeysP keys column absolute true rows rows, d.pair = d.base ∧
+      ∀ k : Key, (pcntOf (diff64 (k.val d.base) (k.val d.pair)) (k.val d.base)).1 = 0 := by
+  intro rows
+  have hp := diffRows_self (cmpChainD (keys.map (Key.cmpDiffP column absolute true))) rows
+    (nameRows_nodup ns size ids hnd)
+  refine ⟨hp, ?_⟩
+  intro d hd
+  have := hp.mem_iff.mp hd
+  obtain ⟨b, _, rfl⟩ := List.mem_map.mp this
+  exact ⟨rfl, fun k => pcntOf_self _⟩
 
 end Uft.C08
